@@ -115,7 +115,7 @@ def plan(tier, seed):
     # names: template variable before builtin; attribute access falls back to item lookup
     names = {'tag': 'div', 'close_indent': 0, 'children': [
         'A', {'tag': 'p', 'children': [{'interp': py("rec('n', len) if len == 5 else rec('b', len('ab'))")}]},
-        {'tag': 'q', 'children': [{'interp': py('str(3) + repr(abs)[:9]')}]}, 'B']}
+        {'tag': 'q', 'children': [{'interp': py('str(3) + show(abs)')}]}, 'B']}
     jobs.append({'prog': names, 'vars': [['len', 'maybe', 0], ['abs', 'maybe', 1], ['str', 'maybe', 2]],
                  'label': 'names'})
     attr = {'tag': 'div', 'close_indent': 0, 'children': [
